@@ -50,6 +50,7 @@ type Val struct {
 	Bind                []*Val
 	Ghost               map[string]*Term
 	Lit                 *string // bytes-mode literal text, when known
+	Bound               *Term   // allocation counter at the last modification of the heap keys this value was loaded from
 }
 
 const (
@@ -319,9 +320,12 @@ func (v *Val) String() string {
 type State struct {
 	m     map[string]*Term
 	sorts map[string]*Sort
+	bound map[string]*Term // allocation counter when the key was last set
 }
 
-func NewState() *State { return &State{m: map[string]*Term{}, sorts: map[string]*Sort{}} }
+func NewState() *State {
+	return &State{m: map[string]*Term{}, sorts: map[string]*Sort{}, bound: map[string]*Term{}}
+}
 
 func (s *State) Clone() *State {
 	n := NewState()
@@ -331,7 +335,29 @@ func (s *State) Clone() *State {
 	for k, v := range s.sorts {
 		n.sorts[k] = v
 	}
+	for k, v := range s.bound {
+		n.bound[k] = v
+	}
 	return n
+}
+
+// allocation counter in this state
+func (s *State) next() *Term {
+	if t, ok := s.m["ALLOC"]; ok {
+		return t
+	}
+	return entryVar("ALLOC", IntS)
+}
+
+// upper bound for refs stored under key
+func (s *State) boundOf(key string) *Term {
+	if _, changed := s.m[key]; !changed {
+		return entryVar("ALLOC", IntS)
+	}
+	if b, ok := s.bound[key]; ok {
+		return b
+	}
+	return s.next()
 }
 
 func entryVar(key string, sort *Sort) *Term { return Var("H0$"+key, sort) }
@@ -346,6 +372,7 @@ func (s *State) Get(key string, sort *Sort) *Term {
 func (s *State) Set(key string, sort *Sort, t *Term) {
 	s.m[key] = t
 	s.sorts[key] = sort
+	s.bound[key] = s.next()
 }
 
 func zeroTerm(l leaf) *Term {
